@@ -367,6 +367,9 @@ class CSSStyleSheet(cssutils.stylesheets.StyleSheet):
                 # use proper namespace object
                 self._namespaces = _Namespaces(parentStyleSheet=self, log=self._log)
                 self._cleanNamespaces()
+                # the replaced rules do not belong to this sheet anymore
+                for rule in oldCssRules:
+                    rule._parentStyleSheet = None
 
             else:
                 # reset, also if an exception is raised (raising mode)
